@@ -195,7 +195,8 @@ def reparameterise(rng, who, kind, d, old_recipe, alone=True):
                     return cls_(src_given.copy(), ms.PointCloud(p.copy()), kernel=kern(src_given.points.copy()), min_singular_val=msv)
                 return cls_(src_given.copy(), ms.PointCloud(p.copy()))
             return rec
-        parts = getattr(who, "_vf_parts", None)
+        reg = tx.CHAIN_PARTS.get(id(who))
+        parts = reg[1] if reg is not None and reg[0] is who else None
         if parts is not None and alone and isinstance(parts[0][0], (AbstractPWA, mt.ThinPlateSplines)) and id(who) in TWINS and len(TWINS[id(who)]) == 2:
             # the first member of the chain (a warp) is retargeted through the object the caller still holds: the chain is then
             # the chain of the retargeted warp and the other members
@@ -204,7 +205,7 @@ def reparameterise(rng, who, kind, d, old_recipe, alone=True):
             if rec_link is None or rec_link == "drop":
                 return None
             rest = [p[1] for p in parts[1:]]
-            assemble = who._vf_assemble
+            assemble = reg[2]
             if rng.random() < 0.5:
                 # (in between, the warp is used on its own)
                 try:
